@@ -2060,7 +2060,8 @@ class Interp(object):
             return Obj('enumerate', {'of': a0})
         if name == 'zip':
             if all(isinstance(x, (list, tuple)) for x in args):
-                return [tuple(t) for t in zip(*args)]
+                # (an iterator: a loop over it uses it up)
+                return GenList(tuple(t) for t in zip(*args))
             return Obj('zip', {'of': list(args)})
         if name in ('sorted', 'reversed'):
             if isinstance(a0, (list, tuple)) and not _has_abstract(a0) and not kwargs:
